@@ -90,7 +90,15 @@ def in_situ(ctx, traces, meta):
     rng = ctx.subrng('c16-insitu')
     wd = ctx.wdir('insitu')
     n0 = len(traces)
-    with rletrace.record_rle() as recs:
+    import warnings
+    quiet = contextlib.ExitStack()
+    devnull_ = quiet.enter_context(open(os.devnull, 'w'))
+    quiet.enter_context(contextlib.redirect_stdout(devnull_))
+    quiet.enter_context(contextlib.redirect_stderr(devnull_))
+    quiet.enter_context(warnings.catch_warnings())
+    warnings.simplefilter('ignore')
+    errs = []
+    with quiet, rletrace.record_rle() as recs:
         for t in range(ctx.pick(12, 120)):
             data, _truth = c18.build_nasty_dlis(rng)
             pin = os.path.join(wd, 'f%d.dlis' % t)
@@ -101,7 +109,7 @@ def in_situ(ctx, traces, meta):
                     IndexXML.write_logical_file_sequence_to_xml(li, io.StringIO(), False)
                 ScanHTML.html_scan_RP66V1_file_data_content(pin, io.StringIO(), False, Slice.Slice(), False)
             except Exception as e:
-                ctx.fail('indexing a generated RP66V1 file raised %s: %s' % (type(e).__name__, e), dict(file=t), sig=dict(kind='insitu-exception'))
+                errs.append((t, '%s: %s' % (type(e).__name__, e)))          # reported after the output redirection ends
             os.remove(pin)
         nlib = len(recs)
         import pytest
@@ -111,6 +119,8 @@ def in_situ(ctx, traces, meta):
             with open(os.devnull, 'w') as devnull, contextlib.redirect_stdout(devnull), contextlib.redirect_stderr(devnull):
                 rc = pytest.main(['-q', '-p', 'no:cacheprovider', '--no-header', '-W', 'ignore', '--rootdir', root, tfile])
             ctx.notes['repo_test_Rle_exit_code'] = int(rc)
+    for t, e in errs:
+        ctx.fail('indexing a generated RP66V1 file raised %s' % e, dict(file=t), sig=dict(kind='insitu-exception'))
     judged = 0
     for i, r in enumerate(recs):
         if not r.judged or not r.ev:
